@@ -1,9 +1,9 @@
 import re
-import functools
 from decimal import Decimal
 from typing import Any, Union
 
-from flamapy.core.models.ast import ASTOperation
+from flamapy.core.exceptions import FlamaException
+from flamapy.core.models.ast import ASTOperation, Node
 from flamapy.core.transformations import ModelToText
 from flamapy.metamodels.fm_metamodel.models import (
     Constraint,
@@ -44,6 +44,9 @@ UVL_KEYWORDS = frozenset({
     'include', 'namespace', 'imports', 'as', 'features', 'cardinality', 'constraint', 'constraints',
     'sum', 'avg', 'len', 'floor', 'ceil', 'String', 'Integer', 'Real', 'Boolean', 'Arithmetic',
     'Type', 'or', 'alternative', 'optional', 'mandatory', 'true', 'false'})
+
+AGGREGATE_OPERATORS = (ASTOperation.SUM, ASTOperation.AVG, ASTOperation.LEN,
+                       ASTOperation.FLOOR, ASTOperation.CEIL)
 
 
 class UVLWriter(ModelToText):
@@ -173,18 +176,42 @@ class UVLWriter(ModelToText):
         return result
 
     @staticmethod
-    def _substitute_operator(str_constraint: str,
-                             operator: ASTOperation,
-                             new_operator: str) -> str:
-        return re.sub(rf"\b{operator.value}\b", new_operator, str_constraint)
+    def serialize_constraint(ctc: Constraint) -> str:
+        return UVLWriter._serialize_node(ctc.ast.root)
 
     @staticmethod
-    def serialize_constraint(ctc: Constraint) -> str:
-        str_constraint = ctc.ast.pretty_str()
-        return functools.reduce(lambda acc, op: UVLWriter._substitute_operator(acc,
-                                                                               op,
-                                                                               UVL_OPERATORS[op]),
-                                ASTOperation, str_constraint)
+    def _serialize_operand(node: Node) -> str:
+        """An operand of an operator: compound operands go in parentheses."""
+        result = UVLWriter._serialize_node(node)
+        if node.is_op() and node.data != ASTOperation.NOT and node.data not in AGGREGATE_OPERATORS:
+            result = f"({result})"
+        return result
+
+    @staticmethod
+    def _serialize_node(node: Node) -> str:
+        """UVL syntax of a constraint or expression, written from the tree itself."""
+        if node.is_term():
+            if isinstance(node.data, str):
+                # 'text' is a string literal, anything else a (possibly qualified) reference
+                result = node.data if node.data.startswith("'") else safename(node.data)
+            else:
+                result = UVLWriter.serialize_value(node.data)
+        elif node.data == ASTOperation.XOR:
+            raise FlamaException("UVL has no XOR operator.")
+        elif node.data == ASTOperation.NOT:
+            result = UVL_OPERATORS[node.data] + UVLWriter._serialize_operand(node.left)
+        elif node.data in AGGREGATE_OPERATORS:
+            arguments = [UVLWriter._serialize_node(operand)
+                         for operand in (node.left, node.right) if operand is not None]
+            result = f"{UVL_OPERATORS[node.data]}({', '.join(arguments)})"
+        else:
+            left = UVLWriter._serialize_operand(node.left)
+            right = UVLWriter._serialize_operand(node.right)
+            if node.data == ASTOperation.EXCLUDES:  # A excludes B is written A => !B
+                result = f"{left} {UVL_OPERATORS[ASTOperation.IMPLIES]} !{right}"
+            else:
+                result = f"{left} {UVL_OPERATORS[node.data]} {right}"
+        return result
 
 
 def safename(name: str) -> str:
